@@ -9,6 +9,13 @@ clause for a given attribute named `src`, `Properties/C07.wf_src_sound`); a reje
 The designs of the generator are conflict-free by construction (every signal bit has one owner), except that
 a tenth of them uses a bit of an I/O port twice (inside one I/O value, `Cat(pins[0:2], pins[1:3])`, or in two
 buffers): amaranth must refuse exactly those (DriverConflict naming the I/O port) and convert all the others.
+
+Stream `fieldclash` (gen_hier `field_clash`): structured (`lib.data`) signals - struct, array, nested, union and flexible
+layouts, zero-width and enumeration fields, layouts two of whose own field paths join to one name (`{"f": {"g": 1}, "f.g": 3}`,
+`{"g": Array(2, 2), "g[0]": 1}`) - together with memories, I/O ports, top-level ports and other signals that carry the very
+names amaranth gives the alias wires of the fields (`sig.f`, `sig.f.g`, `sig[0]`, `sig[0].f`, `sig[0][1]`), in a module
+that reads the structured signal: all of these must convert (names stay unique, the alias gives way).  Stream
+`fieldclash_cells` (`field_clash_cells`) also gives these names to `Instance`s and submodules (finding F39, repaired).
 """
 import os
 import random
@@ -33,6 +40,8 @@ F_SPACE = "F23"       # a name containing white space is printed verbatim: the t
 F_DOT = "F24"         # a signal named like the field wire of a structured signal (`s.f`)
 F_WINDOW = "F25"      # emit_assign does not clip the window at an array element shorter than the array
 F_ZEROIO = "F26"      # zero-width IOPort as a top-level port
+F_FIELDCELL = "F39"   # an Instance or submodule named like the field alias wire of a structured signal (`s.f`, `s[0]`):
+                      # `emit_signal_fields` runs before `emit_submodules`/`emit_cells`, the repair of F24 did not see cell names
 
 
 def esc(s):
@@ -60,7 +69,9 @@ def design_case(seed, opts):
     rng = random.Random(seed)
     hist = {}
     case = {"seed": seed, "opts": opts,
-            "stream": opts.get("odd") or ("f25" if opts.get("allow_f25") else "zero_io" if opts.get("zero_io") else "main")}
+            "stream": opts.get("odd") or ("f25" if opts.get("allow_f25") else "zero_io" if opts.get("zero_io") else
+                                          "fieldclash_cells" if opts.get("field_clash_cells") else
+                                          "fieldclash" if opts.get("field_clash") else "main")}
     try:
         built = gen_design.gen_design(rng, hist, **opts)
     except Exception as e:
@@ -72,6 +83,10 @@ def design_case(seed, opts):
     case["shapes"] = [c for c, on in ((F_WINDOW, built.has_f25), (F_ZEROIO, any(len(io) == 0 for io in built.ioports))) if on]
     case["foreign"] = "(foreign " + " ".join(built.foreign) + ")"
     case["io_dup"] = list(built.io_dup_kinds) if built.io_dup else []
+    fc = built.field_clash if opts.get("field_clash") else None
+    if fc:
+        case["field_clash"] = {"signals": [[n, t, sorted(set(sufs))] for n, t, sufs in fc["signals"]],
+                               "placed": [list(x) for x in fc["placed"]]}
     # source locations: drawn after the design is complete (the design of a seed does not depend on it)
     case["emit_src"] = rng.random() < 0.5 if opts.get("src_attrs") else False
     hist["emit_src=" + str(case["emit_src"])] = 1
@@ -82,7 +97,45 @@ def design_case(seed, opts):
         tb = traceback.extract_tb(e.__traceback__)
         where = f"{os.path.basename(tb[-1].filename)}:{tb[-1].name}" if tb else "?"
         case["error"] = (errkind(e), (str(e) or repr(e))[:300], where)
+    if fc and "text" in case:
+        for k in fc_realized(case["text"], fc):
+            hist["field_clash_realized=" + k] = 1
     return case
+
+
+def fc_realized(text, fc):
+    """which kinds of object carry, in some module of the emitted text, the name of the alias wire of a field of a
+    structured signal whose own wire is declared in the same module (diagnostics: the collision really took place).
+    `self`: two field paths of the signal itself join to one name"""
+    mods, cur = [], None
+    for line in text.split("\n"):
+        t = line.split()
+        if not t:
+            continue
+        if t[0] == "module":
+            cur = {}
+            mods.append(cur)
+        elif cur is not None and t[0] == "wire":
+            cur[t[-1]] = "port" if any(x in ("input", "output", "inout") for x in t[1:-1]) else "wire"
+        elif cur is not None and t[0] == "memory":
+            cur[t[-1]] = "memory"
+        elif cur is not None and t[0] == "cell" and len(t) == 3:
+            cur[t[2]] = "cell"
+    signals = {nm for kind, nm in fc["placed"] if kind == "signal"}
+    out = set()
+    for decl in mods:
+        for base, _tag, sufs in fc["signals"]:
+            if decl.get("\\" + base) not in ("wire", "port"):
+                continue
+            if len(set(sufs)) < len(sufs):
+                out.add("self")
+            for suf in set(sufs):
+                kind = decl.get("\\" + base + suf)
+                if kind in ("memory", "cell", "port"):
+                    out.add(kind)
+                elif kind == "wire" and base + suf in signals:
+                    out.add("signal")
+    return sorted(out)
 
 
 def c02_case(seed):
@@ -169,6 +222,8 @@ def classify(case, what):
         cls.append(F_SPACE)
     if any(("." in n or "[" in n) for n in names) and case.get("opts", {}).get("layouts"):
         cls.append(F_DOT)
+    if any(kind in ("instance", "submodule") for kind, _n in (case.get("field_clash") or {}).get("placed", [])):
+        cls.append(F_FIELDCELL)
     return cls + case.get("shapes", [])
 
 
@@ -214,7 +269,8 @@ def judge(chk, case, resp):
         chk.hist("outcome", "raises:" + kind)
         report(chk, f"rtlil.convert of an elaboratable design raises {kind} in {where}: {msg[:120]} "
                       f"(stream {case['stream']}, design seed {case['seed']})",
-                      dict(replay, kind="raises", error=[kind, msg, where], names=case.get("names"), classes=classify(case, "raises")))
+                      dict(replay, kind="raises", error=[kind, msg, where], names=case.get("names"), classes=classify(case, "raises"),
+                           **({"field_clash": case["field_clash"]} if case.get("field_clash") else {})))
         return
     text = case["text"]
     d = dict(tok.split("=", 1) for tok in resp.split("\t") if "=" in tok)
@@ -283,7 +339,7 @@ def witness_f19(chk):
 
 
 def observations(chk):
-    """three behaviours of the unchanged tree that the text of the property does not clearly decide: replayed on every run
+    """four behaviours of the unchanged tree that the text of the property does not clearly decide: replayed on every run
     and written to the evidence (`coverage.observations`); none of them is judged (never a violation)"""
     from amaranth.hdl import Signal, Module, IOPort, IOBufferInstance, ClockSignal, Fragment, Elaboratable
     from amaranth.back import rtlil
@@ -336,6 +392,25 @@ def observations(chk):
         obs["stored_fragment_origins"] = f"len(origins) after 1, 2, 3 Fragment.get: {lens}; rtlil.convert afterwards {second}"
     except Exception as e:
         obs["stored_fragment_origins"] = "raises " + errkind(e)
+    # (d) a negative integer *attribute* of an Instance: RTLIL has no `signed` marker for attributes (parameters have one), the
+    #     value is emitted as its two's complement of max(32, needed) bits, so -7 and 2**32-7 (and -(1<<40) and 1<<40) give
+    #     the same text: the bit vector is exactly the given value's, the integer is determined only modulo 2**width
+    try:
+        from amaranth.hdl import Instance
+        lines = {}
+        for tag, v in (("-7", -7), ("2**32-7", 2 ** 32 - 7), ("-(1<<40)", -(1 << 40)), ("1<<40", 1 << 40)):
+            m = Module()
+            o = Signal(name="o")
+            m.submodules.u = Instance("ext", a_weight=v, p_weight=v, o_o=o)
+            text = rtlil.convert(m, ports=[o], emit_src=False)
+            lines[tag] = [l.strip() for l in text.split("\n") if "\\weight" in l]
+        obs["negative_int_attribute"] = (
+            f"a_weight=-7 -> `{lines['-7'][0]}` (parameter: `{lines['-7'][1]}`); same attribute text as a_weight=2**32-7: "
+            f"{lines['-7'][0] == lines['2**32-7'][0]}; a_weight=-(1<<40) same attribute text as a_weight=1<<40: "
+            f"{lines['-(1<<40)'][0] == lines['1<<40'][0]}; the parameter texts differ: "
+            f"{lines['-7'][1] != lines['2**32-7'][1] and lines['-(1<<40)'][1] != lines['1<<40'][1]}")
+    except Exception as e:
+        obs["negative_int_attribute"] = "raises " + errkind(e)
     chk.extra["observations"] = obs
 
 
@@ -348,6 +423,7 @@ def run(chk):
     n_main = 1400 if quick else 16000
     n_c02 = 300 if quick else 3000
     n_odd = 120 if quick else 1000
+    n_fc = 200 if quick else 2000
     base = dict(instances=True, memories=True, iobufs=True, layouts=True, io_cat=True, src_attrs=True)
     plan = [("design", n_main, dict(base)),
             ("design", n_odd, dict(base, odd="dollar")),
@@ -355,7 +431,10 @@ def run(chk):
             ("design", n_odd, dict(base, odd="dot")),
             ("design", n_odd, dict(base, allow_f25=True)),
             ("design", n_odd, dict(base, zero_io=True)),
-            ("c02", n_c02, {})]
+            ("c02", n_c02, {}),
+            # appended after the older streams: their design seeds are the ones they always had
+            ("design", n_fc, dict(base, field_clash=True)),
+            ("design", n_odd, dict(base, field_clash=True, field_clash_cells=True))]
     args = []
     for kind, n, opts in plan:
         seeds = [rng.getrandbits(48) for _ in range(n)]
@@ -382,7 +461,13 @@ def run(chk):
         "all others must convert), lib.data structured signals, ports given as list, dict or tuples, half of the designs "
         "converted with emit_src=True; plus single-module designs of the C02 program generator; plus three streams with odd user names "
         "(x$k, white space, dotted) and two streams with the constructs of recorded findings (array-element targets shorter than "
-        "the array under a part-select, zero-width IOPorts). distinct = distinct emitted text; non-trivial = the document has a cell or process")
+        "the array under a part-select, zero-width IOPorts); plus a stream in which 1-3 more structured signals (struct, array, "
+        "array of struct, array of array, nested, union, flexible layouts, zero-width and enumeration fields, layouts two of whose "
+        "own field paths join to one name) meet memories, I/O ports, top-level ports and other signals named like the alias wires "
+        "of their fields (sig.f, sig.f.g, sig[0], sig[0].f, sig[0][1]) inside a module that reads the structured signal "
+        "(distribution.constructs field_clash_*; field_clash_realized=<kind> counts the designs whose emitted text declares such "
+        "a name as memory / port / signal wire / cell next to the structured signal's own wire); a further "
+        "stream names Instances and submodules that way as well. distinct = distinct emitted text; non-trivial = the document has a cell or process")
     chk.extra["programs"] = chk.cov["evaluations"]
     chk.extra["disagreements_checked"] = chk.cov["evaluations"]
     chk.extra["trusted_base"] = [
@@ -394,4 +479,5 @@ def run(chk):
         "a generated source location (`src`) on a foreign cell is not compared; a given attribute named `src` is (wf_src_sound)",
         "a DriverConflict is a legitimate refusal only for a design of the generator that uses an I/O port bit twice; the generator "
         "gives every other bit of every signal and port exactly one owner, so any other DriverConflict is reported",
-        "declaration-before-use order of wires inside a module is not checked (the reader collects items by kind)"]
+        "declaration-before-use order of wires inside a module is not checked (the reader collects items by kind)",
+        "a field alias wire that gives way to another object of its name is not required to exist (aliases are debugging aids)"]
